@@ -195,9 +195,17 @@ def _replay(task):
             elif op == "pdb":
                 objs[dst] = _via_file(objs[x], "pdb")
             elif op == "delete_atom":
+                hash(objs[x])
+                twin = _twin(objs[x])
                 objs[x].delete_atom_by_index(arg[0])
+                if twin is not None:
+                    twin.delete_atom_by_index(arg[0])
             elif op == "add_bond":
+                hash(objs[x])
+                twin = _twin(objs[x])
                 objs[x].add_bond(objs[x].atom(arg[0]), objs[x].atom(arg[1]), type=_bond_type("triple"), order=3)
+                if twin is not None:
+                    twin.add_bond(twin.atom(arg[0]), twin.atom(arg[1]), type=_bond_type("triple"), order=3)
         except Exception as e:  # noqa
             return dict(step=k, problems=["%s raised %s: %s" % (op, type(e).__name__, str(e)[:120])])
         if op in ("delete_atom", "add_bond"):
@@ -207,6 +215,19 @@ def _replay(task):
                     return dict(step=k, problems=["editing object %d (%s) changed the value of object %d" % (x, op, i)])
         if op in ("delete_atom", "add_bond"):
             edited.add(x)
+            # whatever the edit did to the value, the == => hash law holds for the edited object too (it was hashed before the edit)
+            # (the comparison object is a deep copy taken BEFORE the edit that received the same edit: copying an edited topology is
+            #  outside the property)
+            try:
+                if twin is not None and objs[x] == twin and hash(objs[x]) != hash(twin):
+                    return dict(step=k, problems=["after %s object %d compares equal to a twin that received the same edit but hashes differently" % (op, x)])
+            except Exception:  # noqa
+                pass
+        for t_ in objs.values():          # every live object is hashed at every point of the history
+            try:
+                hash(t_)
+            except Exception:  # noqa
+                pass
         if op not in ("delete_atom", "add_bond") and dst in edited:
             edited.discard(dst)          # the slot now holds a fresh object
         if not last:
@@ -240,6 +261,14 @@ def _replay(task):
         if probs:
             return dict(step=k, problems=sorted(set(probs)))
     return None
+
+
+def _twin(t):
+    import copy
+    try:
+        return copy.deepcopy(t)
+    except Exception:  # noqa
+        return None
 
 
 def _pdb_derived(hist, i):
